@@ -187,7 +187,100 @@ theorem insert_heap_is_the_source_u32 (g : Rng D) (fuel e sz cap bits : Nat) (a 
   simp only [insert, insertStep, h1, h2, Bool.false_eq_true, if_false]
   exact insert_heap_32_eq g _ e sz cap bits a he hb hn d h
 
+
+/-! ### the plain table (`Big`) arm, when the element is not the placeholder itself -/
+
+theorem insert_big_64_eq (g : Rng D) (e sz cap bits : Nat) (a : Tbl) (d : D) {res : (Bool × Nat) × Array Nat}
+    (h : Gen.insert_big_64 e sz bits a = .ok res) :
+    insertPlain cfg64 g sz cap bits a e d = armOut cap bits d (.ok res) := by
+  simp only [Gen.insert_big_64, RH.p_lookfor_64_eq, RH.p_insert_64_eq, Gen.RI.idx, Gen.RI.set] at h
+  by_cases hp : e = bits
+  · simp only [hp, if_true] at h
+    cases h
+  · simp only [hp, if_false] at h
+    unfold insertPlain
+    simp only [hp, if_false, bind, StateT.bind, Except.bind, pure, StateT.pure, Except.pure]
+    generalize (if e = 0 then bits else e) = e' at h ⊢
+    cases hl : RH.lookfor e' a 0 with
+    | found idx =>
+      simp only [hl, RH.convLooked, Except.ok.injEq] at h
+      subst h
+      rfl
+    | empty idx =>
+      simp only [hl, RH.convLooked, RH.put.eq_1, Except.ok.injEq] at h
+      subst h
+      simp [tablePlace, hl, armOut, RH.put.eq_1, pure, StateT.pure, Except.pure]
+    | needInsert =>
+      simp only [hl, RH.convLooked] at h
+      have hroom : hasRoom cfg64 a = Gen.RI.anyzero a := rfl
+      by_cases hr : Gen.RI.anyzero a = true
+      · simp only [hr, if_true] at h
+        cases hpi : RH.pinsert e' a 0 with
+        | error x => rw [hpi] at h; cases x <;> cases h
+        | ok q =>
+          obtain ⟨idx, a'⟩ := q
+          rw [hpi] at h
+          simp only [RH.convErr, Except.ok.injEq] at h
+          subst h
+          simp [tablePlace, hl, hroom, hr, hpi, armOut, RH.put.eq_1, pure, StateT.pure, Except.pure]
+      · simp only [hr, Bool.false_eq_true, if_false] at h
+        cases h
+
+theorem insert_big_32_eq (g : Rng D) (e sz cap bits : Nat) (a : Tbl) (hn : a.size < 2 ^ 32) (d : D)
+    {res : (Bool × Nat) × Array Nat} (h : Gen.insert_big_32 e sz bits a = .ok res) :
+    insertPlain cfg32 g sz cap bits a e d = armOut cap bits d (.ok res) := by
+  simp only [Gen.insert_big_32, RH.p_lookfor_32_eq _ a _ hn, RH.p_insert_32_eq _ a _ hn, Gen.RI.idx, Gen.RI.set] at h
+  by_cases hp : e = bits
+  · simp only [hp, if_true] at h
+    cases h
+  · simp only [hp, if_false] at h
+    unfold insertPlain
+    simp only [hp, if_false, bind, StateT.bind, Except.bind, pure, StateT.pure, Except.pure]
+    generalize (if e = 0 then bits else e) = e' at h ⊢
+    cases hl : RH.lookfor e' a 0 with
+    | found idx =>
+      simp only [hl, RH.convLooked, Except.ok.injEq] at h
+      subst h
+      rfl
+    | empty idx =>
+      simp only [hl, RH.convLooked, RH.put.eq_1, Except.ok.injEq] at h
+      subst h
+      simp [tablePlace, hl, armOut, RH.put.eq_1, pure, StateT.pure, Except.pure]
+    | needInsert =>
+      simp only [hl, RH.convLooked] at h
+      have hroom : hasRoom cfg32 a = Gen.RI.room16 a := rfl
+      by_cases hr : Gen.RI.room16 a = true
+      · simp only [hr, if_true] at h
+        cases hpi : RH.pinsert e' a 0 with
+        | error x => rw [hpi] at h; cases x <;> cases h
+        | ok q =>
+          obtain ⟨idx, a'⟩ := q
+          rw [hpi] at h
+          simp only [RH.convErr, Except.ok.injEq] at h
+          subst h
+          simp [tablePlace, hl, hroom, hr, hpi, armOut, RH.put.eq_1, pure, StateT.pure, Except.pure]
+      · simp only [hr, Bool.false_eq_true, if_false] at h
+        cases h
+
+/-- `SetU64::insert` on a plain table, for an element other than the placeholder: if the translated arm returns,
+`insert` of the model returns the same -/
+theorem insert_big_is_the_source_u64 (g : Rng D) (fuel e sz cap bits : Nat) (a : Tbl) (hb : bits = 0 ∨ bits > 64) (d : D)
+    {res : (Bool × Nat) × Array Nat} (h : Gen.insert_big_64 e sz bits a = .ok res) :
+    insert cfg64 g (fuel + 1) (.heap sz cap bits a) e d = armOut cap bits d (.ok res) := by
+  have h1 : isDense cfg64 bits = false := by simp [isDense, cfg64]; omega
+  have h2 : isPlain cfg64 bits = true := by simp [isPlain, cfg64]; omega
+  simp only [insert, insertStep, h1, h2, Bool.false_eq_true, if_false, if_true]
+  exact insert_big_64_eq g e sz cap bits a d h
+theorem insert_big_is_the_source_u32 (g : Rng D) (fuel e sz cap bits : Nat) (a : Tbl) (hb : bits = 0 ∨ bits > 32)
+    (hn : a.size < 2 ^ 32) (d : D) {res : (Bool × Nat) × Array Nat} (h : Gen.insert_big_32 e sz bits a = .ok res) :
+    insert cfg32 g (fuel + 1) (.heap sz cap bits a) e d = armOut cap bits d (.ok res) := by
+  have h1 : isDense cfg32 bits = false := by simp [isDense, cfg32]; omega
+  have h2 : isPlain cfg32 bits = true := by simp [isPlain, cfg32]; omega
+  simp only [insert, insertStep, h1, h2, Bool.false_eq_true, if_false, if_true]
+  exact insert_big_32_eq g e sz cap bits a hn d h
+
 end SC
 
 #print axioms SC.insert_heap_64_eq
 #print axioms SC.insert_heap_is_the_source_u32
+#print axioms SC.insert_big_is_the_source_u32
